@@ -36,7 +36,7 @@ fn nl_std_eps(lat: f64, eps: f64) -> u64 {
         if a < NL_T[i].1 + eps { return NL_T[i].0; }
         i += 1;
     }
-    if a <= 87.0 + eps { 2 } else { 1 }
+    if a <= 87.0 { 2 } else { 1 }      // 87 is exact in the standard (NL(+-87) = 2): no tolerance sliver here
 }
 fn nl_std(lat: f64) -> u64 { nl_std_eps(lat, 0.) }
 
